@@ -111,7 +111,7 @@ def run(chk, replay=None):
             if kind == 'print':
                 return pre + ['print %d %d' % (slots['printer'], mslot)], sym + ['pr'], n0
             if kind == 'validate':
-                return pre + ['validate %d %d' % (slots['validator'], mslot)], sym + ['o'], n0
+                return pre + ['validate %d %d' % (slots['validator'], mslot)], sym + ['a1' if d['math'] else 'a0'], n0
             if kind == 'analyse':
                 return pre + ['analyse %d %d' % (slots['analyser'], mslot)], sym + ['a1' if d['math'] else 'a0'], n0
             if kind == 'generate':
